@@ -24,6 +24,10 @@ import MajoranaVerif.Proofs.Mvp61
 import MajoranaVerif.Proofs.Mvp61Witness2
 import MajoranaVerif.Proofs.Mvp62
 import MajoranaVerif.Proofs.Mvp62Witness
+import MajoranaVerif.Proofs.Mvp63
+import MajoranaVerif.Proofs.Mvp63Witness
+import MajoranaVerif.Proofs.Mvp61Fwd
+import MajoranaVerif.Proofs.Mvp61Cfg
 open GoInt Model.Seq Proofs.Seq
 
 namespace Props.C12
@@ -815,5 +819,148 @@ theorem mvp62_second_branch_wins :
   obtain ⟨_, a, _⟩ := Proofs.Mvp61Witness.obsSeq_eq Proofs.Mvp61Witness.two_seq
   obtain ⟨c, _, _, d, _, e, _⟩ := Proofs.Mvp61Witness.obs_eq Proofs.Mvp62Witness.two62_p2
   exact ⟨a, c, d, e⟩
+
+end Props.C12
+
+/-! ## MVP-6.3 (package M63): lower bound, and register renaming's behaviours as theorems
+
+`Model.Mvp63` is the cycle-accurate model of `proc/mvp6-3` — `Model.Mvp61` with the configuration flags `v62`, `v63` set,
+on a context in rename-table mode: results go to the transaction rename table, a resolved conditional branch does
+`RATCommit` / `RATRollback`, the control unit pushes a runner whose only hazard is write-after-write / write-after-read.
+The Go machine is NOT deterministic: a consumer pushed one cycle after TWO writers of its operand is forwarded the result
+of whichever writer Go's map iteration yields first.  The model does not choose: such a run ends with the distinguished
+halt `Model.Mvp63.isMapOrder` (field `m63pK=maporder,…` of the driver; the check gives no verdict: about 4 % of the generated
+runs).  On every other run status, cycles, ticks and final state agree with the Go machine. -/
+namespace Props.C12
+
+/-- **C12 lower bound, MVP-6.3**: at most `eu` instructions executed per tick; the cycle counter is at least
+`executed / eu`.  For every run. -/
+theorem mvp63_lower_bound (app : App) (ctx : Model.Context) (eu wu fuel : Nat) :
+    (Model.Mvp63.run app ctx eu wu fuel).final.executed ≤ eu * (Model.Mvp63.run app ctx eu wu fuel).ticks ∧
+    ((Model.Mvp63.run app ctx eu wu fuel).final.executed : Int) ≤ eu * (Model.Mvp63.run app ctx eu wu fuel).final.cycles :=
+  Proofs.Mvp63.run_executed_le app ctx eu wu fuel
+
+/-- Non-vacuity: the two-unit run of `Proofs.Mvp63Witness.renApp` executes 4 instructions in 317 cycles -/
+example : (Model.Mvp63.run Proofs.Mvp63Witness.renApp (Proofs.Mvp61Witness.ctx0 64) 2 2 1000).final.cycles = 317 ∧
+    (Model.Mvp63.run Proofs.Mvp63Witness.renApp (Proofs.Mvp61Witness.ctx0 64) 2 2 1000).final.executed = 4 := by
+  obtain ⟨_, a, _, b, _⟩ := Proofs.Mvp61Witness.obs_eq Proofs.Mvp63Witness.ren_p2
+  exact ⟨a, b⟩
+
+/-- **KF-ooo-rename as a theorem on the tied model.**  `li t0, 1; li t0, 2; mv t1, t0; ret`: the unpipelined machine
+leaves `t1 = 2`; MVP-6.3 with one unit AND with two units ends with `ret`, `t0 = 2` and `t1 = 1` — the second `li` is
+admitted by renaming while the first is in flight, and the `mv` is forwarded the FIRST `li`'s result (one operand
+forwarded). -/
+theorem mvp63_rename_forwards_older_writer :
+    (Model.Seq.runMvp1 Proofs.Mvp63Witness.renApp ⟨Proofs.Mvp61Witness.ctx0 64, 0⟩ 10).final.ctx.Registers.get1 6 = 2#32 ∧
+    (Model.Mvp63.run Proofs.Mvp63Witness.renApp (Proofs.Mvp61Witness.ctx0 64) 1 1 1000).halt = some .ret ∧
+    (Model.Mvp63.run Proofs.Mvp63Witness.renApp (Proofs.Mvp61Witness.ctx0 64) 1 1 1000).final.ctx.Registers.get1 6 = 1#32 ∧
+    (Model.Mvp63.run Proofs.Mvp63Witness.renApp (Proofs.Mvp61Witness.ctx0 64) 2 2 1000).halt = some .ret ∧
+    (Model.Mvp63.run Proofs.Mvp63Witness.renApp (Proofs.Mvp61Witness.ctx0 64) 2 2 1000).final.forwarded = 1 ∧
+    (Model.Mvp63.run Proofs.Mvp63Witness.renApp (Proofs.Mvp61Witness.ctx0 64) 2 2 1000).final.ctx.Registers.get1 5 = 2#32 ∧
+    (Model.Mvp63.run Proofs.Mvp63Witness.renApp (Proofs.Mvp61Witness.ctx0 64) 2 2 1000).final.ctx.Registers.get1 6 = 1#32 := by
+  obtain ⟨_, _, a, _⟩ := Proofs.Mvp61Witness.obsSeq_eq Proofs.Mvp63Witness.ren_seq
+  obtain ⟨b, _, _, _, _, _, c, _⟩ := Proofs.Mvp61Witness.obs_eq Proofs.Mvp63Witness.ren_p1
+  obtain ⟨d, _, _, _, e, f, g, _⟩ := Proofs.Mvp61Witness.obs_eq Proofs.Mvp63Witness.ren_p2
+  exact ⟨a, b, c, d, e, f, g⟩
+
+/-- **the non-determinism of MVP-6.3, located.**  The same program behind one `nop`, two units: the two writers of `t0`
+are pushed in ONE cycle, the `mv` (one read-after-write hazard) matches both in the control unit's
+`for previousRunner := range u.pushedRunnersInPreviousCycle`; the model stops after 314 ticks with the halt `maporder`.
+(On the Go machine 24 runs of this input gave `t1 = 1` 19 times and `t1 = 2` 5 times.) -/
+theorem mvp63_map_order_witness :
+    Model.Mvp63.isMapOrder (Model.Mvp63.run Proofs.Mvp63Witness.moApp (Proofs.Mvp61Witness.ctx0 64) 2 2 1000) = true ∧
+    (Model.Mvp63.run Proofs.Mvp63Witness.moApp (Proofs.Mvp61Witness.ctx0 64) 2 2 1000).ticks = 314 :=
+  Proofs.Mvp63Witness.mo_p2
+
+/-- **KF-ooo-spec-error as a theorem on the tied model.**  `li s1, 0; lw t6, 64(s1); bnez t6, l2; j nowhere; l2:`
+(memory `0x11…`): the unpipelined machine takes the branch and falls off the end, as does MVP-6.3 with two units; with
+three units the wrong-path `j` to an undefined label is executed in the shadow of the slow branch and the whole run
+returns its error. -/
+theorem mvp63_wrong_path_error :
+    (Model.Seq.runMvp1 Proofs.Mvp63Witness.specErrApp ⟨Proofs.Mvp61Witness.ctx0 128, 0⟩ 10).halt = some .offEnd ∧
+    (Model.Mvp63.run Proofs.Mvp63Witness.specErrApp (Proofs.Mvp61Witness.ctx0 128) 2 2 1000).halt = some .offEnd ∧
+    (Model.Mvp63.run Proofs.Mvp63Witness.specErrApp (Proofs.Mvp61Witness.ctx0 128) 3 3 1000).halt = some .err ∧
+    (Model.Mvp63.run Proofs.Mvp63Witness.specErrApp (Proofs.Mvp61Witness.ctx0 128) 3 3 1000).final.executed = 2 := by
+  obtain ⟨a, _⟩ := Proofs.Mvp61Witness.obsSeq_eq Proofs.Mvp63Witness.spec_seq
+  obtain ⟨b, _⟩ := Proofs.Mvp61Witness.obs_eq Proofs.Mvp63Witness.spec_p2
+  obtain ⟨c, _, _, d, _⟩ := Proofs.Mvp61Witness.obs_eq Proofs.Mvp63Witness.spec_p3
+  exact ⟨a, b, c, d⟩
+
+/-- **KF-ooo-2branch on MVP-6.3** (two units: normal end, 12 instructions executed, `s10 = 2`; MVP-1: `s10 = 0`), and
+**the shadow of a slow branch is rolled back** (the witness of `mvp61_commits_shadow`, three units: `a4 = 0`). -/
+theorem mvp63_second_branch_wins_and_shadow_rolled_back :
+    (Model.Seq.runMvp1 Proofs.Mvp61Witness.twoApp ⟨Proofs.Mvp61Witness.ctx0 256, 0⟩ 100).final.ctx.Registers.get1 26 = 0#32 ∧
+    (Model.Mvp63.run Proofs.Mvp61Witness.twoApp (Proofs.Mvp61Witness.ctx0 256) 2 2 1500).halt = some .offEnd ∧
+    (Model.Mvp63.run Proofs.Mvp61Witness.twoApp (Proofs.Mvp61Witness.ctx0 256) 2 2 1500).final.executed = 12 ∧
+    (Model.Mvp63.run Proofs.Mvp61Witness.twoApp (Proofs.Mvp61Witness.ctx0 256) 2 2 1500).final.ctx.Registers.get1 26 = 2#32 ∧
+    (Model.Mvp63.run Proofs.Mvp61Witness.shadowApp (Proofs.Mvp61Witness.ctx0 128) 3 3 1000).final.executed = 3 ∧
+    (Model.Mvp63.run Proofs.Mvp61Witness.shadowApp (Proofs.Mvp61Witness.ctx0 128) 3 3 1000).final.ctx.Registers.get1 14 = 0#32 := by
+  obtain ⟨_, a, _⟩ := Proofs.Mvp61Witness.obsSeq_eq Proofs.Mvp61Witness.two_seq
+  obtain ⟨c, _, _, d, _, e, _⟩ := Proofs.Mvp61Witness.obs_eq Proofs.Mvp63Witness.two63_p2
+  obtain ⟨_, _, _, f, _, g, _⟩ := Proofs.Mvp61Witness.obs_eq Proofs.Mvp63Witness.shadow63_p3
+  exact ⟨a, c, d, e, f, g⟩
+
+end Props.C12
+
+/-! ## MVP-6.1 / 6.2: what a forwarded operand means (follow-up of package M61)
+
+`mvp61_forwarding_sends_result` and `mvp61_forwarding_delivers` say WHICH value reaches the consumer and where it is put.
+This section says what it does there, for all 45 regenerated instruction structs. -/
+namespace Props.C12
+
+/-- **forwarding is an early write-back (the C04 clause for the forwarded operand).**  Let `e` be the producer's execution
+(a register result for a register other than `x0`).  The consumer — any instruction, forward slot empty before — run with
+the slot `{e.Register ↦ e.RegisterValue}` (what `euPrepare_receives` installs) on a context in map mode with nothing
+uncommitted computes EXACTLY what it computes, slot empty, on the context after the producer's write-back
+(`Model.Seq.writeRegister c e` = `ctx.WriteRegister(e)`); the same for the addresses `MemoryRead` returns. -/
+theorem mvp61_forwarded_run_is_run_after_writeback (i : Gen.Instr) (hf : Model.fwdOf i = {}) (c : Model.Context)
+    (hr : c.rat = false) (ht : c.Transaction.entries = []) (h00 : GoInt.GoMap.get1 c.Registers 0 = 0#32)
+    (e : Gen.Execution) (hreg : e.Register ≠ 0)
+    (labels : GoInt.GoMap String Word) (pc : Word) (mem : List Byte) (seq : Word) :
+    (i.setForward { Register := e.Register, Value := e.RegisterValue }).run c labels pc mem seq =
+      i.run (Model.Seq.writeRegister c e) labels pc mem seq ∧
+    (i.setForward { Register := e.Register, Value := e.RegisterValue }).memoryRead c seq =
+      i.memoryRead (Model.Seq.writeRegister c e) seq :=
+  ⟨Proofs.Mvp61Fwd.run_forward_eq_write i hf c hr ht h00 e.Register e.RegisterValue hreg labels pc mem seq,
+   Proofs.Mvp61Fwd.memoryRead_forward_eq_write i hf c hr ht h00 e.Register e.RegisterValue hreg seq⟩
+
+/-- Non-vacuity: `addi t1, t0, 1` with `t0 = 0` in the register file and the slot `{t0 ↦ 7}` gives `t1 = 8` -/
+example : (match ((Gen.Instr.addi_ { rd := 6, rs := 5, imm := 1#32 }).setForward { Register := 5, Value := 7#32 }).run
+      ({} : Model.Context) {} 4#32 [] 0#32 with
+    | .ok e => e.RegisterChange && e.Register == 6 && e.RegisterValue == 8#32
+    | .error _ => false) = true := by
+  decide +kernel
+
+/-- **RAW through forwarding: the consumer gets the sequential operand values** (the counterpart, for the forwarded
+operand, of `Props.C04.hazard_interlock_sequential_operands`).  `c` is the pipeline's context when the consumer runs, `a`
+the architectural one (all older results applied).  If they agree on every register the consumer reads except the forwarded
+`fr` — the control unit forwards only when the RAW hazard on `fr` is the consumer's ONLY hazard — and the forwarded value
+is the architectural value of `fr`, then the consumer's `Run` / `MemoryRead` with the slot `{fr ↦ v}` on `c` are its
+`Run` / `MemoryRead` on `a`. -/
+theorem mvp61_forwarded_operands_sequential (i : Gen.Instr) (hf : Model.fwdOf i = {}) (c a : Model.Context)
+    (hr : c.rat = false) (ht : c.Transaction.entries = []) (h00 : GoInt.GoMap.get1 c.Registers 0 = 0#32)
+    (har : a.rat = false) (hat : a.Transaction.entries = [])
+    (fr : Reg) (v : Word) (hfr : fr ≠ 0) (hv : GoInt.GoMap.get1 a.Registers fr = v)
+    (hsame : ∀ r ∈ i.readRegisters, r ≠ 0 → r ≠ fr → GoInt.GoMap.get1 c.Registers r = GoInt.GoMap.get1 a.Registers r)
+    (labels : GoInt.GoMap String Word) (pc : Word) (mem : List Byte) (seq : Word) :
+    (i.setForward { Register := fr, Value := v }).run c labels pc mem seq = i.run a labels pc mem seq ∧
+    (i.setForward { Register := fr, Value := v }).memoryRead c seq = i.memoryRead a seq :=
+  Proofs.Mvp61Fwd.forwarded_operands_sequential i hf c a hr ht h00 har hat fr v hfr hv hsame labels pc mem seq
+
+/-- **the three models never mix.**  `Model.Mvp62` and `Model.Mvp63` are `Model.Mvp61` with the configuration flags `v62`,
+`v63` set by their `init`; no tick changes a flag, so every state of a run is in the configuration of its initial state:
+`(false, false)` for MVP-6.1, `(true, false)` for MVP-6.2, `(true, true)` for MVP-6.3. -/
+theorem mvp6x_configuration_is_constant (app : App) (ctx : Model.Context) (eu wu fuel : Nat) (s : Model.Mvp61.State) :
+    (Model.Mvp61.init ctx eu wu = .ok s →
+      (Model.Mvp61.runFrom app fuel s 0).final.v62 = false ∧ (Model.Mvp61.runFrom app fuel s 0).final.v63 = false) ∧
+    (Model.Mvp62.init ctx eu wu = .ok s →
+      (Model.Mvp61.runFrom app fuel s 0).final.v62 = true ∧ (Model.Mvp61.runFrom app fuel s 0).final.v63 = false) ∧
+    (Model.Mvp63.init ctx eu wu = .ok s →
+      (Model.Mvp61.runFrom app fuel s 0).final.v62 = true ∧ (Model.Mvp61.runFrom app fuel s 0).final.v63 = true) := by
+  have h := Proofs.Mvp61Cfg.run_cfg app fuel s
+  refine ⟨fun hi => ?_, fun hi => ?_, fun hi => ?_⟩
+  · have := Proofs.Mvp61Cfg.init61_cfg hi; exact ⟨h.1.trans this.1, h.2.trans this.2⟩
+  · have := Proofs.Mvp61Cfg.init62_cfg hi; exact ⟨h.1.trans this.1, h.2.trans this.2⟩
+  · have := Proofs.Mvp61Cfg.init63_cfg hi; exact ⟨h.1.trans this.1, h.2.trans this.2⟩
 
 end Props.C12
